@@ -27,6 +27,8 @@ pub enum PlanOp {
 	Notif,
 	/// `subscribe_to_method` (no wire traffic; answered by the background task)
 	Handler,
+	/// a call whose future is dropped by the caller after this many polls
+	CallCancelled(u32),
 }
 
 #[derive(Debug, Clone, PartialEq)]
@@ -42,6 +44,7 @@ pub enum Outcome {
 	Sub(Result<Value, String>, Option<Ans>),
 	Notif(Result<(), String>),
 	Handler(Result<(), String>),
+	Cancelled,
 }
 
 #[derive(Debug, Clone)]
@@ -174,6 +177,15 @@ pub fn spawn_peer(wire: Wire, peer_log: Arc<Mutex<PeerLog>>, cfg: PeerCfg) -> to
 					} else {
 						// batch reply in a drawn permutation
 						let mut parts: Vec<(String, Answer)> = ids.iter().map(|i| mk(i.0, &i.1, false)).collect();
+						if hostile && parts.len() > 1 && rt::chance("omit_entries", 1, 3) {
+							// hostile: leave out some entries of the reply
+							peer_log.lock().unwrap().hostile_actions += 1;
+							rt::probe("hostile_action");
+							for _ in 0..rt::draw_range("omit_n", 1, parts.len() as u32 - 1) {
+								let j = rt::draw("omit_pos", parts.len() as u32) as usize;
+								parts.remove(j);
+							}
+						}
 						let mut order = Vec::new();
 						while !parts.is_empty() {
 							let j = rt::draw("perm", parts.len() as u32) as usize;
@@ -281,6 +293,30 @@ pub async fn run_op(client: &Client, ti: usize, op: &PlanOp, nonce_ctr: &std::sy
 			};
 			return OpRec { nonces: vec![n], done_stamp: st, outcome };
 		}
+		PlanOp::CallCancelled(k) => {
+			let n = fresh();
+			rt::event("op-call-cancellable", format!("t{ti} nonce={n} polls={k}"));
+			let fut = client.request::<Value, _>("m", rpc_params![n]);
+			tokio::pin!(fut);
+			let r: Option<Result<Value, Error>> = tokio::select! {
+				biased;
+				r = &mut fut => Some(r),
+				_ = rt::yield_n(k) => None,
+			};
+			let st = rt::event("op-done", format!("t{ti} nonce={n} cancellable {r:?}"));
+			let outcome = match r {
+				None => {
+					rt::probe("call_cancelled");
+					Outcome::Cancelled
+				}
+				Some(Ok(v)) => Outcome::Call(Ok(v.clone()), Some(Ans::Ok(v))),
+				Some(Err(e)) => match client_err_to_ans(&e) {
+					Ok(a) => Outcome::Call(Err(format!("{e:?}")), Some(a)),
+					Err(s) => Outcome::Call(Err(s), None),
+				},
+			};
+			return OpRec { nonces: vec![n], done_stamp: st, outcome };
+		}
 		PlanOp::Handler => {
 			let n = fresh();
 			rt::event("op-handler", format!("t{ti} nonce={n}"));
@@ -316,7 +352,8 @@ pub async fn scenario() {
 		let mut v = Vec::new();
 		for _ in 0..k {
 			v.push(match rt::draw("op", 20) {
-				0..=11 => PlanOp::Call,
+				0..=9 => PlanOp::Call,
+				10 | 11 => PlanOp::CallCancelled(rt::draw_range("cancel_after", 1, 8)),
 				12..=15 => PlanOp::Batch(rt::draw_range("batch_n", 1, 4)),
 				16..=17 => PlanOp::Subscribe,
 				18 => PlanOp::Handler,
@@ -401,6 +438,8 @@ fn check(wire: &Wire, ops: &[OpRec], peer: &PeerLog, hostile: bool) {
 				return;
 			};
 			match first_answer(n) {
+				// the reply left this entry out and the client put its own "no answer" marker there
+				None if what == "batch" && *got == Ans::Err(0, String::new(), None) => {}
 				None => rt::violate(P, "unattributable", format!("{what}:no-answer"), format!("op nonce={n} id={id} completed with {got:?} but the peer never answered that id")),
 				Some(a) => {
 					if &a.ans != got {
